@@ -16,7 +16,7 @@ import scipy.sparse as sp
 from vf import msmcommon as mc
 from vf import clustercommon as cc
 
-RULE = ('cases = one routine of a 45-entry registry of the numerical API with '
+RULE = ('cases = one routine of a 48-entry registry of the numerical API with '
         'seeded arguments (including the degenerate ones that create masked '
         'cells: zero probabilities, all-zero joint-count blocks, zero rows); '
         'each argument tuple is evaluated 6 times in one process: heap fill '
@@ -199,6 +199,19 @@ def build_registry():
     reg('libdist.euclidean', E.libdist.euclidean, g_dist(np.float64))
     reg('libdist.euclidean[f32]', E.libdist.euclidean, g_dist(np.float32))
     reg('libdist.manhattan', E.libdist.manhattan, g_dist(np.int32))
+    # caller-supplied (uninitialised) output buffers
+    reg('libdist.euclidean[out]',
+        lambda X, y: E.libdist.euclidean(X, y, out=np.empty(len(X))),
+        g_dist(np.float64))
+    reg('libdist.manhattan[out]',
+        lambda X, y: E.libdist.manhattan(X, y, out=np.empty(len(X))),
+        g_dist(np.float32))
+    reg('libdist.hamming[out]',
+        lambda X, y: E.libdist.hamming(X, y, out=np.empty(len(X))),
+        lambda rng: ((lambda X: (X, X[0].copy()))(
+            rng.integers(0, 3, size=(int(rng.integers(1, 30)),
+                                     int(rng.integers(1, 8)))
+                         ).astype(np.uint8)), {}, False))
     reg('libdist.hamming', E.libdist.hamming,
         lambda rng: ((lambda X: (X, X[0].copy()))(
             rng.integers(0, 3, size=(int(rng.integers(1, 30)),
